@@ -135,6 +135,40 @@ typedef struct {
 } c10_out;
 void c10_run(const c10_scn *scn, c10_out *out);
 
+/* ---------------- C11: pool life cycle ---------------- */
+enum { /* api ids logged in R_API_CALL / R_API_RET */
+	A_CREATE = 1, A_THREADS_CREATE, A_ATTACH_FIRST, A_SHUTDOWN, A_SHUTDOWN_WAIT, A_DESTROY, A_WAIT_EARLY, A_TCREATE_LATE,
+	A_ATTACH_LATE, A_WAIT_IN_POOL, A_DESTROY_IN_POOL
+};
+typedef struct {
+	uint8_t nthreads;	/* 1..16 */
+	uint8_t flags;		/* bit0 BIND2CPU, bit1 CLOEXEC */
+	uint8_t skip_first;
+	uint8_t attach_first;	/* a helper thread becomes thread 0 via tp_thread_attach_first (needs skip_first) */
+	uint8_t nmsgs;		/* in-flight messages sent right before shutdown */
+	uint8_t msg_pvt;	/* some of them to the virtual thread */
+	uint8_t timer;		/* periodic 1 ms timer on a thread */
+	uint8_t pipe_ev;	/* a readable pipe registered as a persistent read event */
+	uint8_t wait_early;	/* call tp_shutdown_wait before shutdown (must be EBUSY) */
+	uint8_t shutdown_mode;	/* 0 outside, 1 from a pool thread, 2 two external threads at once, 3 twice, 4 skipped (destroy only) */
+	uint8_t late_calls;	/* bit0 threads_create after shutdown (EBUSY), bit1 attach_first after shutdown (EBUSY) */
+	uint8_t wait_mode;	/* 0 none, 1 outside, 2 from a pool thread first (EDEADLK) then outside, 3 two external threads at once */
+	uint8_t destroy_in_pool_first; /* tp_destroy from a pool thread before shutdown (must be EDEADLK) */
+	tp_plans plans;		/* schedule plan + resource faults armed from before tp_create */
+} c11_scn;
+typedef struct {
+	int create_rc;
+	int hang;
+	uint64_t tp_ptr_after_failed_create; /* *ptp as left by a failing tp_create (harness pre-sets it to a sentinel) */
+	uint64_t tpt_ptr[17];
+	uint32_t log_at_destroy_ret;	/* log index when tp_destroy returned 0 */
+	uint32_t reaped_after_destroy;	/* library threads the harness had to join itself */
+	tp_res_stats res_before;	/* snapshot before create (all zero expected) */
+	tp_res_stats res;		/* after destroy (before harness cleanup) */
+	uint32_t cb_after_destroy;	/* callbacks observed by the harness counters after destroy returned */
+} c11_out;
+void c11_run(const c11_scn *scn, c11_out *out);
+
 #ifdef __cplusplus
 }
 #endif
